@@ -14,6 +14,7 @@ SPEC = {
         "(type-level: its fields hold Option<File>, child ends are Rc<File>) and are dropped in the parent before "
         "the status read. The pipeline hand-over moves the previous stage's read end out (Option::take) into the "
         "next stage. Atomicity of creation w.r.t. forks on other threads (pipe2(O_CLOEXEC)) is checked too."
+        " Thorough tier, windows: set_inheritable(f, b) sets HANDLE_FLAG_INHERIT to exactly b."
     ),
     "not_decided": "the contents of real descriptor tables; EOF timing; descriptors the *caller* leaves inheritable.",
     "trusted_base": ["rustc MIR", "POSIX: FD_CLOEXEC descriptors are closed by exec; pipe() returns inheritable descriptors",
